@@ -1,21 +1,26 @@
 // C04 — a code yields tokens once, only to its client, redirect URI and PKCE proof.
 //
 // Random histories of authorize / login / callback / code-exchange operations by
-// five clients are executed against a fresh world on both routers and judged by
-// a sequential reference model written from the property statement.
+// ten clients - interleaved with credential rotations at the storage and other
+// token-endpoint traffic - are executed against a fresh world on both routers and
+// judged by a sequential reference model written from the property statement.
 package main
 
 import (
-	"net/url"
 	"fmt"
 	"math/rand/v2"
+	"net/url"
 	"slices"
 	"strings"
+	"time"
+
+	jose "github.com/go-jose/go-jose/v4"
 
 	"github.com/zitadel/oidc/v3/pkg/oidc"
 	"github.com/zitadel/oidc/v3/pkg/op"
 
 	"verif/internal/ev"
+	"verif/internal/keys"
 	"verif/internal/opdrv"
 	"verif/internal/vclient"
 	"verif/internal/vstore"
@@ -45,7 +50,42 @@ type opLog struct {
 	Result string `json:"result"`
 }
 
-var clientIDs = []string{"web", "web2", "post", "native", "jwt", "nativesec", "uasec", "webpub"}
+var clientIDs = []string{"web", "web2", "post", "native", "jwt", "jwt2", "jwt3", "nativesec", "uasec", "webpub"}
+
+// ---- credentials as the storage currently registers them ----
+//
+// Three private_key_jwt clients: "jwt" and "jwt2" with key IDs of their own, and "jwt3" whose (different) key is
+// registered under the very key ID "jwt" uses - key IDs are names inside one client's key set, nothing more.
+// "svc" (a service user, client_secret_basic) has a registered key as well (jwt-bearer grant); it never may use it
+// as a client credential. Keys and secrets can be rotated by the history (same key ID, new key): from then on only
+// the new one is a credential of the client, whatever the provider accepted before.
+var keyHolders = []string{"jwt", "jwt2", "jwt3", "svc"}
+
+var kidOf = map[string]string{"jwt": "ckey-jwt", "jwt2": "ckey-jwt2", "jwt3": "ckey-jwt", "svc": "ckey-svc"}
+
+const maxGen = 3
+
+// genKey is generation g of client id's key, carrying the key ID it is registered under.
+func genKey(id string, g int) *keys.Key {
+	name := "ckey-" + id
+	if g > 0 {
+		name = fmt.Sprintf("ckey-%s-g%d", id, g)
+	}
+	return keys.Get(name, jose.RS256).With(kidOf[id], jose.RS256, "sig")
+}
+
+type credState struct {
+	keyGen  map[string]int  // key holder -> generation of the key the storage holds now
+	secGen  map[string]int  // client -> how often its secret was replaced
+	usedOwn map[string]bool // key holders that have shown an assertion of their own (valid signature) to the token endpoint
+}
+
+func secretOf(id string, g int) string {
+	if g == 0 {
+		return "secret-" + id
+	}
+	return fmt.Sprintf("secret-%s-r%d", id, g)
+}
 
 // oddly registered clients (DESIGN 6a): a native and a user-agent application that nevertheless hold a secret.
 // Success is grey for them; refusals (no / wrong secret, another client's code, ...) are as strict as for anybody.
@@ -60,6 +100,14 @@ func setup(w *opdrv.World) map[string]*vclient.Client {
 	cl["post"].Redirects = []string{opdrv.PostRedirect, "https://post.example/cb2"}
 	cl["native"].Redirects = []string{opdrv.NativeRedirect, "com.example.native:/cb2", "http://127.0.0.1:7777/cb", "http://localhost/app/cb?x=1"}
 	cl["jwt"].Redirects = []string{opdrv.JWTRedirect, "https://jwt.example/cb2"}
+	for _, id := range []string{"jwt2", "jwt3"} {
+		j := vclient.Confidential(id, "", "https://"+id+".example/cb", "https://"+id+".example/cb2")
+		j.Auth = oidc.AuthMethodPrivateKeyJWT
+		j.Grants = []oidc.GrantType{oidc.GrantTypeCode, oidc.GrantTypeRefreshToken}
+		w.Store.AddClient(j)
+		w.Store.AddClientKey(id, genKey(id, 0))
+		cl[id] = j
+	}
 	ns := vclient.Confidential("nativesec", "secret-nativesec", "http://127.0.0.1:7000/cb", "com.example.nativesec:/cb2")
 	ns.AppType = op.ApplicationTypeNative
 	w.Store.AddClient(ns)
@@ -90,15 +138,61 @@ func runHistory(run *ev.Run, caseIdx int, router int) {
 	violated := func(key, what string) {
 		run.Violation("C04:"+opdrv.RouterNames[router]+":"+key, int64(caseIdx), what, map[string]any{"router": opdrv.RouterNames[router], "history": log})
 	}
+	cs := &credState{keyGen: map[string]int{}, secGen: map[string]int{}, usedOwn: map[string]bool{}}
+	// the credential a client would present today
+	curKey := func(id string) *keys.Key { return genKey(id, cs.keyGen[id]) }
+	authOK := func(c *vclient.Client) opdrv.ClientAuth {
+		if c.Auth == oidc.AuthMethodPrivateKeyJWT {
+			return opdrv.AssertionAuth(w.ClientAssertion(curKey(c.ID), c.ID))
+		}
+		return w.AuthFor(c)
+	}
 	for s := 0; s < steps; s++ {
 		var choice int
 		if len(reqs) == 0 {
 			choice = 0
 		} else {
-			choice = r.IntN(10)
+			choice = r.IntN(22)
 		}
 		switch {
-		case choice <= 1: // start
+		case choice >= 20: // the world around the code flows: credentials are rotated, other grants use the token endpoint
+			switch what := pick(r, "rotate-key", "rotate-key", "rotate-secret", "jwt-bearer"); what {
+			case "rotate-key":
+				// the storage replaces the key of a private_key_jwt client (same key ID, new key)
+				id := pick(r, "jwt", "jwt2", "jwt3")
+				if cs.keyGen[id] >= maxGen {
+					break
+				}
+				cs.keyGen[id]++
+				w.Store.AddClientKey(id, curKey(id))
+				log = append(log, opLog{"rotate-key", fmt.Sprintf("client=%s kid=%s generation=%d", id, kidOf[id], cs.keyGen[id]), "ok"})
+				run.Count("ops", "rotate_key")
+			case "rotate-secret":
+				id := pick(r, "web", "web2", "post", "nativesec", "uasec")
+				if cs.secGen[id] >= maxGen {
+					break
+				}
+				cs.secGen[id]++
+				c := *cl[id] // a registered Client value is immutable: register a new one
+				c.Secret = secretOf(id, cs.secGen[id])
+				w.Store.AddClient(&c)
+				cl[id] = &c
+				log = append(log, opLog{"rotate-secret", fmt.Sprintf("client=%s generation=%d", id, cs.secGen[id]), "ok"})
+				run.Count("ops", "rotate_secret")
+			default:
+				// the service user obtains a token with the jwt-bearer grant (its assertion is verified by the same
+				// machinery that verifies client assertions); not judged here, it only is part of the history
+				resp := w.Token(router, url.Values{"grant_type": {"urn:ietf:params:oauth:grant-type:jwt-bearer"}, "scope": {"openid"},
+					"assertion": {w.ClientAssertion(curKey("svc"), "svc")}}, opdrv.NoAuth())
+				log = append(log, opLog{"jwt-bearer", "svc", resp.Brief()})
+				if resp.Panic != nil {
+					violated("panic:"+resp.Panic.Site(), "handler panicked")
+					return
+				}
+				cs.usedOwn["svc"] = true
+				run.Count("ops", "jwt_bearer:"+map[bool]string{true: "tokens", false: "refused"}[opdrv.DecodeTokens(resp) != nil])
+			}
+		case choice <= 3: // start
 			c := cl[pick(r, clientIDs...)]
 			m := &mReq{client: c.ID, uri: pick(r, c.Redirects...), nonce: fmt.Sprintf("n%d", r.IntN(1000))}
 			m.scopes = pick(r, "openid", "openid profile", "openid email offline_access", "openid profile email")
@@ -129,7 +223,7 @@ func runHistory(run *ev.Run, caseIdx int, router int) {
 			m.id = id
 			reqs = append(reqs, m)
 			run.Count("ops", "start")
-		case choice == 2: // login
+		case choice <= 5: // login
 			m := pick(r, reqs...)
 			if !m.consumed {
 				m.user = pick(r, "user-1", "user-2")
@@ -137,7 +231,7 @@ func runHistory(run *ev.Run, caseIdx int, router int) {
 				log = append(log, opLog{"login", m.id + " as " + m.user, fmt.Sprint(m.done)})
 				run.Count("ops", "login")
 			}
-		case choice <= 4: // callback
+		case choice <= 9: // callback
 			m := pick(r, reqs...)
 			resp := w.Callback(router, m.id)
 			ar := opdrv.DecodeAuthResponse(resp)
@@ -214,12 +308,35 @@ func runHistory(run *ev.Run, caseIdx int, router int) {
 				cross = presenter != m.client
 			}
 			pc := cl[presenter]
-			credKind := pick(r, "ok", "ok", "ok", "wrong", "none")
+			credKind := pick(r, "ok", "ok", "ok", "ok", "ok", "ok", "ok", "ok", "ok", "wrong", "wrong", "none", "none", "forged", "forged", "stale")
+			credDetail := ""
 			var auth opdrv.ClientAuth
 			credValid := true
+			badCred := "bad-credential"
+			afterSignerSpoke := false
+			speaks := "" // the key holder that shows a genuine assertion of its own in this request
+			if credKind == "forged" && pc.Auth == oidc.AuthMethodNone {
+				credKind = "ok" // a public client has no credential that could be forged; naming it is all there is
+			}
+			rotated := (pc.Auth == oidc.AuthMethodPrivateKeyJWT && cs.keyGen[pc.ID] > 0) ||
+				((pc.Auth == oidc.AuthMethodBasic || pc.Auth == oidc.AuthMethodPost) && cs.secGen[pc.ID] > 0)
+			if rotated && r.IntN(5) == 0 {
+				credKind = "stale"
+			}
+			if credKind == "stale" {
+				switch {
+				case pc.Auth == oidc.AuthMethodPrivateKeyJWT && cs.keyGen[pc.ID] > 0:
+				case (pc.Auth == oidc.AuthMethodBasic || pc.Auth == oidc.AuthMethodPost) && cs.secGen[pc.ID] > 0:
+				default:
+					credKind = "wrong" // nothing was rotated for this client so far
+				}
+			}
 			switch credKind {
 			case "ok":
-				auth = w.AuthFor(pc)
+				auth = authOK(pc)
+				if pc.Auth == oidc.AuthMethodPrivateKeyJWT {
+					speaks = pc.ID
+				}
 			case "wrong":
 				switch pc.Auth {
 				case oidc.AuthMethodNone:
@@ -229,7 +346,8 @@ func runHistory(run *ev.Run, caseIdx int, router int) {
 					auth = opdrv.PostAuth(pc.ID, "not-the-secret")
 					credValid = false
 				case oidc.AuthMethodPrivateKeyJWT:
-					auth = opdrv.AssertionAuth(w.ClientAssertion(opdrv.ClientKey("svc").With(opdrv.ClientKey("jwt").Kid, "RS256", "sig"), pc.ID))
+					// a key nobody registered for this client, announced under the client's registered key ID
+					auth = opdrv.AssertionAuth(w.ClientAssertion(keys.Get("ckey-nobody", jose.RS256).With(kidOf[pc.ID], jose.RS256, "sig"), pc.ID))
 					credValid = false
 				default:
 					auth = opdrv.BasicAuth(pc.ID, "not-the-secret")
@@ -238,6 +356,72 @@ func runHistory(run *ev.Run, caseIdx int, router int) {
 			case "none":
 				auth = opdrv.IDOnly(pc.ID)
 				credValid = pc.Auth == oidc.AuthMethodNone
+			case "stale":
+				// what used to be the client's credential before the storage replaced it
+				credValid, badCred = false, "stale-credential"
+				switch pc.Auth {
+				case oidc.AuthMethodPrivateKeyJWT:
+					g := r.IntN(cs.keyGen[pc.ID])
+					auth = opdrv.AssertionAuth(w.ClientAssertion(genKey(pc.ID, g), pc.ID))
+					credDetail = fmt.Sprintf("key-generation-%d(current %d)", g, cs.keyGen[pc.ID])
+				case oidc.AuthMethodPost:
+					g := r.IntN(cs.secGen[pc.ID])
+					auth = opdrv.PostAuth(pc.ID, secretOf(pc.ID, g))
+					credDetail = fmt.Sprintf("secret-generation-%d(current %d)", g, cs.secGen[pc.ID])
+				default:
+					g := r.IntN(cs.secGen[pc.ID])
+					auth = opdrv.BasicAuth(pc.ID, secretOf(pc.ID, g))
+					credDetail = fmt.Sprintf("secret-generation-%d(current %d)", g, cs.secGen[pc.ID])
+				}
+			case "forged":
+				// An assertion that names the presenting client, made by the holder of ANOTHER registered key (another
+				// private_key_jwt client or the service user) with its own, genuine key. The forger is preferably somebody
+				// who has already used the token endpoint with that key in this history, and announces its key under its
+				// own key ID, the victim's key ID, no key ID or an unknown one.
+				credValid, badCred = false, "forged-assertion"
+				var all, spoke []string
+				for _, h := range keyHolders {
+					if h != pc.ID {
+						all = append(all, h)
+						if cs.usedOwn[h] {
+							spoke = append(spoke, h)
+						}
+					}
+				}
+				signer := pick(r, all...)
+				if len(spoke) > 0 && r.IntN(4) != 0 {
+					signer = pick(r, spoke...)
+				}
+				afterSignerSpoke = cs.usedOwn[signer]
+				kid := kidOf[signer]
+				kidKind := pick(r, "signer", "signer", "signer", "victim", "absent", "unknown")
+				switch kidKind {
+				case "victim":
+					if k, ok := kidOf[pc.ID]; ok {
+						kid = k
+					} else {
+						kidKind = "signer"
+					}
+				case "absent":
+					kid = ""
+				case "unknown":
+					kid = "ckey-unknown"
+				}
+				iss, sub := pc.ID, pc.ID
+				claims := pick(r, "iss=sub=victim", "iss=sub=victim", "iss=sub=victim", "iss=sub=victim", "iss=victim,sub=signer", "iss=signer,sub=victim")
+				switch claims {
+				case "iss=victim,sub=signer":
+					sub = signer
+				case "iss=signer,sub=victim":
+					if signer == m.client {
+						claims = "iss=sub=victim" // an assertion issued by the owner of the code is not a forgery against it
+					} else {
+						iss = signer
+					}
+				}
+				now := time.Now()
+				auth = opdrv.AssertionAuth(opdrv.Assertion(curKey(signer).With(kid, jose.RS256, "sig"), iss, sub, []string{w.Issuer}, now.Add(-5*time.Second), now.Add(10*time.Minute), nil))
+				credDetail = fmt.Sprintf("signed-by=%s(spoke-before=%v) kid=%s:%q %s", signer, afterSignerSpoke, kidKind, kid, claims)
 			}
 			uriKind := pick(r, "same", "same", "same", "same", "other", "absent", "case", "slash", "query", "loopback-variant", "loopback-variant")
 			uri := m.uri
@@ -329,7 +513,13 @@ func runHistory(run *ev.Run, caseIdx int, router int) {
 				}
 				w.Store.Arm(nil)
 			}
-			detail := fmt.Sprintf("code=%s(of %s/%s) presenter=%s cred=%s uri=%s verifier=%s challenge=%s fault=%s", codeKind, m.id, m.client, presenter, credKind, uriKind, verKind, m.method, faulted)
+			if speaks != "" {
+				cs.usedOwn[speaks] = true
+			}
+			if credDetail != "" {
+				credDetail = "[" + credDetail + "]"
+			}
+			detail := fmt.Sprintf("code=%s(of %s/%s) presenter=%s cred=%s"+credDetail+" uri=%s verifier=%s challenge=%s fault=%s", codeKind, m.id, m.client, presenter, credKind, uriKind, verKind, m.method, faulted)
 			log = append(log, opLog{"exchange", detail, resp.Brief()})
 			run.Eval()
 			if resp.Panic != nil {
@@ -351,7 +541,9 @@ func runHistory(run *ev.Run, caseIdx int, router int) {
 				refuse = append(refuse, "cross-client")
 			}
 			if !credValid {
-				refuse = append(refuse, "bad-credential")
+				// wrong / no credential; a credential the storage has replaced since; an assertion naming this client
+				// that was made with somebody else's key: none of them authenticates the caller as this client
+				refuse = append(refuse, badCred)
 			}
 			if uri != m.uri {
 				refuse = append(refuse, "redirect-uri-"+uriKind)
@@ -369,8 +561,27 @@ func runHistory(run *ev.Run, caseIdx int, router int) {
 			toks := opdrv.DecodeTokens(resp)
 			success := toks != nil && (toks.Access != "" || toks.ID != "" || toks.Refresh != "")
 			slices.Sort(refuse)
-			dim := fmt.Sprintf("%s|%s|%s|%s|%s|%s|%s|%v", shape[0], codeKind, cl[m.client].Auth, presenter == m.client, credKind, uriKind, verKind+"/"+m.method, m.consumed)
+			dim := fmt.Sprintf("%s|%s|%s|%v|%s|%s|%s|%v", shape[0], codeKind, cl[m.client].Auth, presenter == m.client, credKind, uriKind, verKind+"/"+m.method, m.consumed)
 			run.Distinct(dim)
+			rn := opdrv.RouterNames[router]
+			run.Count("credential", credKind+":"+map[bool]string{true: "tokens", false: "refused"}[success])
+			if len(refuse) == 1 && faulted == "" {
+				// the scenarios in which the credential alone decides: everything else about the request conforms
+				switch {
+				case credKind == "forged":
+					run.Observed("forged-assertion-alone:" + rn)
+					if afterSignerSpoke {
+						run.Observed("forged-assertion-after-forger-spoke:" + rn)
+						run.Count("scenario", "forged-assertion-after-forger-spoke:"+rn)
+					}
+				case credKind == "stale" && pc.Auth == oidc.AuthMethodPrivateKeyJWT:
+					run.Observed("stale-key-alone:" + rn)
+					run.Count("scenario", "stale-key-alone:"+rn)
+				case credKind == "stale":
+					run.Observed("stale-secret-alone:" + rn)
+					run.Count("scenario", "stale-secret-alone:"+rn)
+				}
+			}
 			if len(refuse) > 0 {
 				run.Count("refuse_reason", strings.Join(refuse, "+"))
 				if success {
@@ -420,6 +631,22 @@ func runHistory(run *ev.Run, caseIdx int, router int) {
 			}
 			run.Count("outcome", "success")
 			run.Observed("success:" + opdrv.RouterNames[router])
+			if pc.Auth == oidc.AuthMethodPrivateKeyJWT {
+				if cs.keyGen[pc.ID] > 0 {
+					run.Observed("success-with-rotated-key:" + rn)
+					run.Count("scenario", "success-with-rotated-key:"+rn)
+				}
+				for _, h := range keyHolders {
+					if h != pc.ID && kidOf[h] == kidOf[pc.ID] && cs.usedOwn[h] {
+						// another client whose key carries the same key ID has authenticated before
+						run.Observed("success-shared-kid-after-other:" + rn)
+						run.Count("scenario", "success-shared-kid-after-other:"+rn)
+					}
+				}
+			} else if cs.secGen[pc.ID] > 0 {
+				run.Observed("success-with-rotated-secret:" + rn)
+				run.Count("scenario", "success-with-rotated-secret:"+rn)
+			}
 			m.consumed = true
 			// the issued tokens carry subject, client, scopes and nonce of the request
 			idc, err := w.VerifyWithOPKey(toks.ID)
@@ -449,12 +676,17 @@ func runHistory(run *ev.Run, caseIdx int, router int) {
 
 func main() {
 	run := ev.Start("C04", "exploration")
-	run.SetRule("random histories (5-40 ops) of start/login/callback/exchange over clients {web,web2 basic; post; native public; jwt private_key_jwt}, each executed on both routers in a fresh world; an exchange is non-trivial; distinct = distinct vectors (router, code kind, client auth method, same-client, credential kind, redirect_uri kind, verifier kind/challenge method, consumed)")
+	run.SetRule("random histories (5-40 ops) of start/login/callback/exchange over clients {web,web2 basic; post; native public; jwt,jwt2,jwt3 private_key_jwt (jwt3's key is registered under the key ID jwt uses); oddly registered nativesec,uasec,webpub}, interleaved with rotations of a client's key (same key ID) or secret at the storage and jwt-bearer grants of a service user, each executed on both routers in a fresh world; credentials presented: own, wrong, none, stale (what the storage held before a rotation), forged (an assertion naming the client, made by another holder of a registered key - preferably one that has used the token endpoint before - under its own / the victim's / no / an unknown key ID, iss/sub mixed); an exchange is non-trivial; distinct = distinct vectors (router, code kind, client auth method, same-client, credential kind, redirect_uri kind, verifier kind/challenge method, consumed)")
 	run.Assume("vstore policy: DeleteAuthRequest removes the request and its codes; AuthRequestByCode fails for unknown codes",
 		"after a failed attempt on a code later success is grey (burning on failure would be legal)",
+		"the storage is the only authority on a client's credentials at the time of the request: a caller is authenticated as client X by X's secret as registered now, or by an assertion iss=sub=X signed with the key the storage holds now for (X, kid of the assertion); a replaced key or secret, and an assertion made with a key registered for somebody else, authenticate nobody whatever the provider accepted earlier",
 		"one exchange in eight runs under an injected storage-method fault; its own answer is C10's business, but a code that yielded tokens under the fault counts as consumed and a later replay must be refused")
 	run.Mandatory("success:provider", "success:legacy")
-	n := run.N(5000, 60000)
+	for _, rn := range opdrv.RouterNames {
+		run.Mandatory("forged-assertion-alone:"+rn, "forged-assertion-after-forger-spoke:"+rn, "stale-key-alone:"+rn, "stale-secret-alone:"+rn,
+			"success-with-rotated-key:"+rn, "success-with-rotated-secret:"+rn, "success-shared-kid-after-other:"+rn)
+	}
+	n := run.N(6000, 60000)
 	if rc := run.ReplayCase(); rc >= 0 {
 		runHistory(run, int(rc), 0)
 		runHistory(run, int(rc), 1)
